@@ -29,10 +29,30 @@ EXPLANATION = (
     "assignment of their leaf expressions (self-calls inlined, delegation to a wrapped node's predicate taken as that "
     "node's 'not is_mutable()'); (8) is_mutable() of those classes is a constant agreeing with the declared "
     "IMutableFileNode/IImmutableFileNode interface, an unconditional refusal, or exactly the wrapped object's "
-    "is_mutable(), never is_readonly() or another capability predicate. "
-    "Undecided: JSON and Unicode library behaviour, netstring codec itself (covered by its unit tests), AES.")
+    "is_mutable(), never is_readonly() or another capability predicate; (9) writer gates: a cap read from the child "
+    "(get_write_uri / get_readonly_uri) is overwritten by a default only on an edge saying it is None/empty; the rw slot "
+    "is the plain empty netstring only on an edge saying writekey is None; _encrypt_rw_uri is called as (writekey, "
+    "<value derived from get_write_uri()>); child.raise_error() precedes every append (children of an AuxValueDict are "
+    "exempt while Adder.modify checks raise_error() before its store); MustBeDeepImmutableError is raised only after "
+    "'deep_immutable' and 'not is_allowed_in_immutable_directory()'; (10) reader gates: a result other than the parsed "
+    "container is an empty container returned only on an edge saying the data is empty; the scan starts at offset 0; "
+    "every path to the node factory decrypts the rw field or passed an edge saying the directory is read-only; the "
+    "rw/ro slot expressions of the factory are not unconditionally empty (x and None); after an edge saying the "
+    "directory is mutable or the child is allowed, the entry is stored before the next entry / the return; "
+    "create_immutable_directory uploads Data(<the packed children>, ..); (11) UnknownNode.__init__ is executed "
+    "abstractly for all 512 combinations of (rw given, ro given, deep_immutable, the two prefix tests of each cap, "
+    "parsed cap is UnknownURI, it recorded an error): no exception / unset attribute; a write cap offered to an "
+    "immutable directory is refused; rw_uri stays None under deep_immutable; a recorded constraint error is never "
+    "ignored (and the parse is told deep_immutable); ro-only, rw+ro (mutable parent, ro not imm.) and a single prefixed "
+    "cap keep their caps in the expected slots without error; caps vanish only together with an error. "
+    "Undecided: JSON and Unicode library behaviour, netstring codec itself (covered by its unit tests), AES; which "
+    "exception type / message a refusal carries; the contents of the MAC (readers ignore it); the modifiers' own "
+    "semantics (must_exist, overwrite, metadata merging - not part of the round trip); whether "
+    "_create_and_validate_node raises for a child that recorded an error or leaves it to the caller's "
+    "is_allowed_in_immutable_directory() filter; the values of the prefixes inside UnknownNode (C19.6 decides the "
+    "tests around each prefix operation, not which prefix a stored cap ends up with beyond that).")
 TECHNIQUE = ("static analysis: writer/reader table agreement over def-use closures, CFG gate rules, constant folding, "
-             "truth-table equivalence of predicate methods")
+             "truth-table equivalence of predicate methods, exhaustive abstract execution of UnknownNode.__init__")
 
 DN = "dirnode:DirectoryNode"
 PACK = "dirnode:_pack_normalized_children"
@@ -463,7 +483,6 @@ class InitEval:
         for p in self.fn.params:
             if p not in st and p != "self":
                 st[p] = ("sym", p)
-        validated = set()
         n = cfg.entry
         try:
             for _step in range(600):
@@ -485,8 +504,6 @@ class InitEval:
                         return CRASH
                     if isinstance(a, ast.Assign):
                         v = self.ev(a.value, st, env)
-                        if isinstance(v, tuple) and v[0] == "readcap":
-                            validated.add(v[1:])
                         for t in a.targets:
                             p = attr_path(t)
                             if not p or not isinstance(t, (ast.Name, ast.Attribute)) or (
@@ -743,6 +760,16 @@ def run(ctx: Context):
                 return bool(f) and f[0] == "<" and f[1] == pos.id and f[2] == "len(%s)" % dparam
             for (n, w) in find_path_avoiding(ucfg, lambda x: x is on, gate_edge=more, kill=lambda x: x is on):
                 r.violation(unp, unp.loc(n.ast), "outer split is reached without '%s < len(%s)'" % (pos.id, dparam), w)
+            # the scan starts at offset 0: any other constant start skips / misparses the first entry
+            for n in ucfg.nodes:
+                if n.kind == "stmt" and isinstance(n.ast, ast.Assign) and n is not on and \
+                        any(isinstance(t, ast.Name) and t.id == pos.id for t in n.ast.targets):
+                    try:
+                        v0 = get_folder(idx).fold(n.ast.value, unp.module, unp.cls)
+                    except NotConstant:
+                        continue
+                    r.require(v0 == 0 and not isinstance(v0, bool), unp, unp.loc(n.ast),
+                              "the scan of the packed directory starts at offset %r instead of 0" % (v0,))
             # the element parsed by the inner split is element [0] of the outer result
             if inner_split:
                 e0 = arg(inner_split[0], 0, "data")
@@ -999,6 +1026,12 @@ def run(ctx: Context):
             wk = arg(c, 1, "writekey")
             r.require(isinstance(wk, ast.Constant) and wk.value is None, cid, cid.loc(c),
                       "immutable directory is packed with writekey %s" % src(cid, wk))
+        # what is uploaded is the packed string
+        for c in calls_in_func(cid, "Data", into_lambda=True):
+            a0 = arg(c, 0, "data")
+            r.require(a0 is not None and any(x in pcs for x in closure(cid, [a0])[1]), cid, cid.loc(c),
+                      "the uploaded contents of the immutable directory are %s, not the packed children"
+                      % (src(cid, a0) if a0 is not None else "missing"))
         pch = idx.func("dirnode:pack_children")
         fw = calls_in_func(pch, "_pack_normalized_children")
         if not fw:
@@ -1301,3 +1334,319 @@ def run(ctx: Context):
                             "combined: depends on %s)" % (k.name, ", ".join(lv)))
             else:
                 raise AnalysisError("cannot decide what %s.is_mutable() depends on (%s)" % (k.name, ", ".join(lv)))
+
+    # -- 9. writer: nothing is lost or misplaced on the way into the cap slots -------
+    with ctx.rule("C19.9", "R1", "writer: a cap taken from the child is replaced by the empty default only when it is "
+                  "None; the rw slot is the empty netstring only when there is no writekey; _encrypt_rw_uri gets "
+                  "(writekey, write cap); child.raise_error() precedes every append; the immutable refusal fires only "
+                  "for deep_immutable and a child that is not allowed", expected=5) as r:
+        ro_calls = [c for c in calls_in_func(pack, "get_readonly_uri") if isinstance(c.func, ast.Attribute)]
+        rw_calls = [c for c in calls_in_func(pack, "get_write_uri") if isinstance(c.func, ast.Attribute)]
+        if not ro_calls or not rw_calls:
+            raise AnchorVanished("_pack_normalized_children no longer reads get_write_uri() / get_readonly_uri()")
+        child_form = pnorm.norm(node_of(pcfg, ro_calls[0]), ro_calls[0].func.value)
+        child_name = attr_path(ro_calls[0].func.value)
+
+        def rebinding(n):
+            return n.kind == "iter" or (child_name in node_stores(n))
+        # (a) default stores
+        for getter in rw_calls + ro_calls:
+            gnode = node_of(pcfg, getter)
+            r.site(pack, getter, "cap read")
+            a = gnode.ast
+            if not (isinstance(a, ast.Assign) and len(a.targets) == 1 and isinstance(a.targets[0], ast.Name)):
+                continue                      # used inline: no variable to overwrite
+            var = a.targets[0].id
+            forms = {var, pnorm.norm(gnode, getter)}
+            tail = call_tail(getter)
+            for n in pcfg.nodes:
+                if n.kind != "stmt" or n is gnode or var not in node_stores(n) or not isinstance(n.ast, ast.Assign):
+                    continue
+                nm, cl, _ = closure(pack, [n.ast.value])
+                if var in nm or any(call_tail(c) == tail for c in cl):
+                    continue                  # derived from the cap itself
+                hits = find_path_avoiding(pcfg, lambda x, _n=n: x is _n,
+                                          gate_edge=lambda x, lab, _f=forms: is_none_fact(pnorm.edge_fact(x, lab), _f),
+                                          kill=lambda x, _v=var, _n=n: x is not _n and _v in node_stores(x))
+                for (t, w) in hits:
+                    r.violation(pack, pack.loc(t.ast), "the child's %s() is overwritten by %s although it was not "
+                                "tested to be None: the cap is not stored (path: %s)"
+                                % (tail, src(pack, n.ast.value), w.brief()), w)
+        # (b) plain rw slot only without a writekey; (c) argument roles of the encryption
+        encs = calls_in_func(pack, "_encrypt_rw_uri")
+        if not encs:
+            raise AnchorVanished("_pack_normalized_children no longer calls _encrypt_rw_uri")
+        if "writekey" not in pack.params:
+            raise AnchorVanished("_pack_normalized_children has no writekey parameter")
+        for c in encs:
+            r.site(pack, c, "rw cap encryption")
+            a0, a1 = arg(c, 0, "writekey"), arg(c, 1, "rw_uri")
+            ok = a0 is not None and a1 is not None
+            if ok:
+                n0, c0, _ = closure(pack, [a0])
+                n1, c1, _ = closure(pack, [a1])
+                ok = "writekey" in n0 and not any(call_tail(x) == "get_write_uri" for x in c0) \
+                    and any(call_tail(x) == "get_write_uri" for x in c1) and "writekey" not in n1
+            r.require(ok, pack, pack.loc(c), "the rw slot is produced by %s, expected _encrypt_rw_uri(writekey, "
+                      "<the child's write cap>)" % src(pack, c))
+        enc_nodes = [node_of(pcfg, c) for c in encs]
+        rw_vars = set()
+        for n in enc_nodes:
+            if isinstance(n.ast, ast.Assign):
+                rw_vars |= {t.id for t in n.ast.targets if isinstance(t, ast.Name)}
+        if not rw_vars:
+            ctx.note("C19.9: the rw slot is not built in a variable; 'plain only without writekey' is not decided")
+
+        def no_key(x, lab):
+            return is_none_fact(pnorm.edge_fact(x, lab), {"writekey"})
+        for n in pcfg.nodes:
+            if n.kind == "stmt" and isinstance(n.ast, ast.Assign) and (rw_vars & node_stores(n)) \
+                    and not any(n is e for e in enc_nodes):
+                r.site(pack, n.ast, "plain rw slot")
+                for (t, w) in find_path_avoiding(pcfg, lambda x, _n=n: x is _n, gate_edge=no_key,
+                                                 kill=lambda x: "writekey" in node_stores(x)):
+                    r.violation(pack, pack.loc(t.ast), "the rw slot is written as %s although a writekey is present: "
+                                "the children's write caps are dropped from the directory (path: %s)"
+                                % (src(pack, n.ast.value), w.brief()), w)
+        # (d) raise_error() before the append
+        app_nodes = [node_of(pcfg, c) for c in appends]
+
+        def checks_error(n):
+            return any(isinstance(c.func, ast.Attribute) and pnorm.norm(n, c.func.value) == child_form
+                       for c in calls_at(n, "raise_error"))
+        for n in app_nodes:
+            r.site(pack, n.ast, "append")
+        # children arriving in an AuxValueDict come from _unpack_contents (validated by the node factory) or were put
+        # there by Adder.modify: when that checks raise_error() itself, the writer need not repeat it for them
+        adder = idx.func("dirnode:Adder.modify")
+        acfg = adder.cfg()
+        a_st = [n for n in acfg.nodes if n.kind == "stmt" and isinstance(n.ast, ast.Assign) and
+                any(isinstance(t, ast.Subscript) for t in n.ast.targets)]
+        adder_checks = bool(a_st) and not find_path_avoiding(
+            acfg, lambda x: any(x is a for a in a_st), gate_node=lambda x: bool(calls_at(x, "raise_error")),
+            kill=lambda x: x.kind == "iter")
+        cparam = first_positional_params(pack)[0]
+
+        def prechecked(x, lab):
+            return adder_checks and pnorm.edge_fact(x, lab) == ("truth", "isinstance(%s, AuxValueDict)" % cparam, None)
+        for (t, w) in find_path_avoiding(pcfg, lambda x: any(x is a for a in app_nodes), gate_node=checks_error,
+                                         gate_edge=prechecked, kill=rebinding):
+            r.violation(pack, pack.loc(t.ast), "a child is packed without child.raise_error(): a child whose cap failed "
+                        "its constraint is stored as an entry with empty caps instead of being refused (path: %s)"
+                        % w.brief(), w)
+        # (e) the refusal fires only for deep_immutable and a child that is not allowed
+        rz = pcfg.find(raises("MustBeDeepImmutableError"))
+        for n in rz:
+            r.site(pack, n.ast, "refusal")
+            for (what, gate) in (
+                    ("deep_immutable", lambda x, lab: pnorm.edge_fact(x, lab) == ("truth", "deep_immutable", None)),
+                    ("not is_allowed_in_immutable_directory()", lambda x, lab: pnorm.edge_fact(x, lab) == (
+                        "false", child_form + ".is_allowed_in_immutable_directory()", None))):
+                for (t, w) in find_path_avoiding(pcfg, lambda x, _n=n: x is _n, gate_edge=gate, kill=rebinding):
+                    r.violation(pack, pack.loc(t.ast), "MustBeDeepImmutableError is raised without having tested '%s': "
+                                "mutable children can no longer be packed into mutable directories (path: %s)"
+                                % (what, w.brief()), w)
+
+    # -- 10. reader: every parsed entry reaches the result with its caps ---------------
+    with ctx.rule("C19.10", "R1", "reader: only an empty string yields the early empty result; the rw field is "
+                  "decrypted unless the directory is read-only; the cap slots of the node factory are not "
+                  "unconditionally empty; an entry of a mutable directory / an allowed child is always stored",
+                  expected=4) as r:
+        conts = {attr_path(k_t) for k_t in
+                 [t.value for n in ucfg.nodes if n.kind == "stmt" and isinstance(n.ast, ast.Assign)
+                  for t in n.ast.targets if isinstance(t, ast.Subscript)]} - {None}
+        if not conts:
+            raise AnchorVanished("_unpack_contents no longer stores into a children container")
+        # (a) returns
+        for n in reachable_returns(unp):
+            v = n.ast.value
+            r.site(unp, n.ast, "return")
+            if isinstance(v, ast.Name) and v.id in conts:
+                continue
+            empty_ctor = (isinstance(v, ast.Call) and not v.args and not v.keywords) or \
+                (isinstance(v, ast.Dict) and not v.keys)
+            r.require(empty_ctor, unp, unp.loc(n.ast), "_unpack_contents returns %s, not the parsed children or an empty "
+                      "container" % (src(unp, v) if v is not None else "None"))
+            for (t, w) in find_path_avoiding(ucfg, lambda x, _n=n: x is _n,
+                                             gate_edge=lambda x, lab: is_empty_fact(unorm.edge_fact(x, lab), dparam),
+                                             kill=stores(dparam)):
+                r.violation(unp, unp.loc(t.ast), "an empty result is returned for contents not tested to be empty: the "
+                            "directory lists no children (path: %s)" % w.brief(), w)
+        # (b) decryption unless read-only
+        mk_nodes = ucfg.find(has_call("_create_and_validate_node"))
+        dec_nodes = ucfg.find(has_call("_decrypt_rwcapdata"))
+        osp_nodes = [node_of(ucfg, c) for c in outer_split]
+        if not mk_nodes or not dec_nodes or not osp_nodes:
+            raise AnchorVanished("_unpack_contents: node factory call, rwcap decryption or outer split not found")
+
+        def readonly(x, lab):
+            f = unorm.edge_fact(x, lab)
+            if not f:
+                return False
+            if f[0] == "truth" and re.match(r"^self(\._node)?\.is_readonly\(\)$", f[1]):
+                return True
+            return is_none_fact(f, {"self._node.get_writekey()"})
+        for n in dec_nodes:
+            r.site(unp, n.ast, "decryption")
+        for (t, w) in find_path_avoiding(ucfg, lambda x: any(x is m for m in mk_nodes),
+                                         gate_node=lambda x: any(x is d for d in dec_nodes), gate_edge=readonly,
+                                         kill=lambda x: any(x is o for o in osp_nodes)):
+            r.violation(unp, unp.loc(t.ast), "a child is created without decrypting its rw field although the directory "
+                        "was not tested to be read-only: write caps are lost when a writeable directory is read "
+                        "(path: %s)" % w.brief(), w)
+        # (c) the cap slots handed to the factory can be non-empty
+        for c in calls_in_func(unp, "_create_and_validate_node"):
+            r.site(unp, c, "factory slots")
+            for (slot, a) in (("rw", arg(c, 0, "rw_uri")), ("ro", arg(c, 1, "ro_uri"))):
+                if a is None:
+                    r.violation(unp, unp.loc(c), "the node factory is called without a %s slot" % slot)
+                    continue
+                todo, seen_n = [a], set()
+                while todo:
+                    x = todo.pop()
+                    if never_truthy(x) and not isinstance(x, ast.Constant):
+                        r.violation(unp, unp.loc(x), "the %s slot of the node factory is computed by %s, which is empty "
+                                    "whatever the entry holds: the cap is lost" % (slot, src(unp, x)))
+                    for nm in names_in(x):
+                        if nm not in seen_n:
+                            seen_n.add(nm)
+                            todo.extend(d for d in udefs.get(nm, []) if not isinstance(d, ast.Call)
+                                        or call_tail(d) != "split_netstring")
+        # (d) mutable directory / allowed child => stored
+        st_nodes = [n for n in ucfg.nodes if n.kind == "stmt" and (
+            any(s.endswith("[]") and s[:-2] in conts for s in node_stores(n)) or calls_at(n, "set_with_aux"))]
+        if not st_nodes:
+            raise AnchorVanished("_unpack_contents: children store not found")
+        ends = lambda x: any(x is o for o in osp_nodes) or is_return(x) or x is ucfg.exit
+
+        def keep(x, lab):
+            f = unorm.edge_fact(x, lab)
+            return bool(f) and f[0] == "truth" and (f[1] == "self.is_mutable()" or
+                                                    f[1].endswith(".is_allowed_in_immutable_directory()"))
+        for m in mk_nodes:
+            r.site(unp, m.ast, "child creation")
+
+            def transfer(x, lab, nxt, st):
+                if lab == "exc" or nxt is ucfg.raise_exit:
+                    return None
+                if any(x is s for s in st_nodes):
+                    return None
+                if x is not m and ends(x):
+                    return None
+                return 1 if (st or keep(x, lab)) else 0
+            visited, parent = explore(ucfg, 0, transfer, start=m)
+            r.count(len(visited))
+            for (nid, st) in sorted(visited):
+                x = ucfg.nodes[nid]
+                if st and x is not m and ends(x):
+                    w = witness(ucfg, parent, (nid, st))
+                    r.violation(unp, unp.loc(m.ast), "an entry of a mutable directory (or a child that is allowed in an "
+                                "immutable one) can be skipped without being stored: it silently disappears from the "
+                                "listing (path: %s)" % w.brief(), w)
+                    break
+
+        # (e) the reader's refusal of rw fields fires only for immutable directories with a non-empty rw field
+        #     and the factory hands back the node it created
+        try:
+            rwf = assign_of(unp, inner_split[0]).targets[0].elts[0].elts[2].id
+        except Exception:
+            raise AnchorVanished("cannot identify the rw field of the inner split in _unpack_contents")
+        mk_ids = {m.id for m in mk_nodes}
+        for n in ucfg.find(is_raise):
+            if n.id not in ucfg.reachable_nodes():
+                continue
+            # only raises between the split and the node factory (the entry-level refusal)
+            if find_path_avoiding(ucfg, lambda x, _n=n: x is _n, gate_node=lambda x: x.id in mk_ids):
+                r.site(unp, n.ast, "rw-field refusal")
+                for (what, gate) in (
+                        ("the directory is immutable",
+                         lambda x, lab: unorm.edge_fact(x, lab) == ("false", "self.is_mutable()", None)),
+                        ("the rw field is not empty", lambda x, lab: (lambda f: bool(f) and (
+                            (f[0] == "truth" and f[1] in (rwf, "len(%s)" % rwf)) or
+                            (f[0] == "<" and f[1] == "0" and f[2] == "len(%s)" % rwf) or
+                            (f[0] == "<=" and f[1] == "1" and f[2] == "len(%s)" % rwf) or
+                            (f[0] == "!=" and {f[1], f[2]} in ({"0", "len(%s)" % rwf}, {"b''", rwf}))))(
+                                unorm.edge_fact(x, lab)))):
+                    for (t, w) in find_path_avoiding(ucfg, lambda x, _n=n: x is _n, gate_edge=gate,
+                                                     kill=lambda x: any(x is o for o in osp_nodes)):
+                        r.violation(unp, unp.loc(t.ast), "an entry is refused (%s) without having tested that %s: "
+                                    "directories that are fine can no longer be listed (path: %s)"
+                                    % (src(unp, n.ast)[:60], what, w.brief()), w)
+        cv = idx.func(DN + "._create_and_validate_node")
+        cvn = FlowNorm(cv)
+        made = calls_in_func(cv, "create_from_cap")
+        if not made:
+            raise AnchorVanished("_create_and_validate_node no longer calls create_from_cap")
+        cv_rets = reachable_returns(cv)
+        r.require(bool(cv_rets), cv, cv.loc(), "_create_and_validate_node returns nothing: the directory lists a child "
+                  "that is not a node")
+        for n in cv_rets:
+            v = cvn.resolve(n, n.ast.value) if n.ast.value is not None else None
+            r.require(any(v is c for c in made), cv, cv.loc(n.ast), "_create_and_validate_node returns %s, not the node it "
+                      "created: the directory lists a child that is not a node"
+                      % (src(cv, n.ast.value) if n.ast.value is not None else "None"))
+
+    # -- 11. UnknownNode.__init__ over every combination of its inputs -------------------
+    with ctx.rule("C19.11", "R5", "UnknownNode(rw, ro, deep_immutable): a write cap given for an immutable directory is "
+                  "refused, rw_uri stays None there, a recorded constraint error is never ignored, every acceptable "
+                  "combination keeps its caps in the right slots, and caps are dropped only with an error", expected=1) as r:
+        u = idx.func("unknown:UnknownNode.__init__")
+        r.site(u, None)
+        ie = InitEval(u)
+        lv = list(INIT_LEAVES)
+        while True:
+            rows, extra = [], []
+            for bits in itertools.product((False, True), repeat=len(lv)):
+                env = _TT(zip(lv, bits))
+                out = ie.run(env)
+                if env.missing:
+                    extra = [k for k in env.missing if k not in lv]
+                    break
+                rows.append((dict(env), (out,)))
+            if not extra:
+                break
+            lv.extend(extra)
+            if len(lv) > 11:
+                raise AnalysisError("UnknownNode.__init__ tests more than 11 independent conditions: %s" % lv)
+        r.count(len(rows))
+        seen_msgs = set()
+
+        def report(key, msg, row):
+            if key not in seen_msgs:
+                seen_msgs.add(key)
+                r.violation(u, u.loc(), "%s (inputs: %s)" % (msg, ", ".join(k for k in INIT_LEAVES if row.get(k)) or "none"))
+        for (row, (out,)) in rows:
+            rw, ro, deep = row[L_RW], row[L_RO], row[L_DEEP]
+            rwI, rwR = row["rw.startswith(%s)" % IMM_P], row["rw.startswith(%s)" % RO_P]
+            roI, roR = row["ro.startswith(%s)" % IMM_P], row["ro.startswith(%s)" % RO_P]
+            if (rwI and rwR) or (roI and roR) or (not rw and (rwI or rwR)) or (not ro and (roI or roR)):
+                continue                                   # prefix-free prefixes / tests of an absent cap
+            if row[L_ERR] and not row[L_UNK]:
+                continue
+            E = row[L_UNK] and row[L_ERR]
+            if out is CRASH:
+                report("crash", "UnknownNode() fails with an exception or leaves error/rw_uri/ro_uri unset: the directory "
+                       "holding such an entry cannot be listed", row)
+                continue
+            err, v_rw, v_ro = out["error"], out["rw"], out["ro"]
+            if deep and rw and not (rwI and not ro) and not err:
+                report("R1", "a write cap offered for an immutable directory is not refused", row)
+            if deep and v_rw is not None:
+                report("R2", "rw_uri is set on a child of an immutable directory", row)
+            if E and v_ro is not None and not err:
+                report("R3", "the read cap failed its constraint (UnknownURI.get_error()) but is stored without "
+                       "recording the error", row)
+            want = None
+            if not E:
+                if not rw and ro:
+                    want = (None, ("cap", "ro"))
+                elif rw and ro and not deep and not roI:
+                    want = (("cap", "rw"), ("cap", "ro"))
+                elif rw and not ro and (rwI or (rwR and not deep)):
+                    want = (None, ("cap", "rw"))
+            if want is not None and (err or (v_rw, v_ro) != want):
+                report("R4", "an acceptable combination of caps is %s: unknown caps do not round-trip through a "
+                       "directory" % ("refused" if err else "stored as rw_uri=%s ro_uri=%s, expected rw_uri=%s ro_uri=%s"
+                                      % (v_rw, v_ro, want[0], want[1])), row)
+            if (rw or ro) and v_rw is None and v_ro is None and not err:
+                report("R5", "the given caps are dropped without recording an error", row)
